@@ -5,7 +5,7 @@ rows = []
 for p in sorted(glob.glob('/verif/seeded/*/meta.json')):
     m = json.load(open(p)); n = m['name']
     if m.get('valid_on_head') is False:
-        why = 'stale (code it changes was rewritten)' if m.get('stale') else 'superseded (a later repair made the change harmless)'
+        why = m.get('na_reason') or ('stale (code it changes was rewritten)' if m.get('stale') else 'superseded (a later repair made the change harmless)')
         rows.append((n, m.get('repo_head', '?'), 'not applicable to HEAD', why)); continue
     c = m['checks'].get(m['property'], {})
     verdict = 'caught' if c.get('exit') == 1 else 'MISSED'
